@@ -1121,7 +1121,24 @@ def rule_argsdict(ctx, classes=SKETCH_CLASSES):
             if v is None:
                 continue
             okk = isinstance(v, ast.Name) and v.id == p
-            ctx.ob("argsdict", ctor, v, "args[%r] = %s" % (p, unparse(v)), "each entry is the same-named constructor parameter", okk)
+            why = ""
+            if not okk:
+                # int(self.p) / self.p where the attribute is the parameter itself or its 64-bit cast: the same value
+                u = v
+                while isinstance(u, ast.Call) and dotted(u.func) in ("int", "float") and len(u.args) == 1 and not u.keywords:
+                    u = u.args[0]
+                a_ = self_attr(u)
+                if a_ == p:
+                    adefs = [x for x in F.attr_defs(cls) if x.attr == p]
+                    def _wide(x):
+                        if isinstance(x, ast.Name):
+                            return x.id == p
+                        return isinstance(x, ast.Call) and (dotted(x.func) or "").split(".")[-1] in ("uint64", "int64", "float64") \
+                            and len(x.args) == 1 and isinstance(x.args[0], ast.Name) and x.args[0].id == p
+                    okk = bool(adefs) and all(_wide(x.value) for x in adefs)
+                if not okk:
+                    why = "the recorded value is `%s`, not the constructor's `%s`: a sketch rebuilt from args (attached views, workers, mergers) differs" % (unparse(v, 50), p)
+            ctx.ob("argsdict", ctor, v, "args[%r] = %s" % (p, unparse(v)), "each entry is the same-named constructor parameter", okk, why)
         if fac is not None:
             tv = vals.get("cms_type")
             lit = tv.value if isinstance(tv, ast.Constant) else None
@@ -1458,6 +1475,28 @@ def rule_window(ctx, classes=SKETCH_CLASSES):
                          "window loop entered although len(key) < n is possible" if not p else "multiplicity is not 1"), fact_strs(c)))
         agg(ctx, "window", k, looped[0].node if looped else k.node, "%s: window loop" % k.name,
             "len(key) > n: every length-n window is added once, in order", res)
+        # each window is added by the kernel add() itself uses, and the window loop is never left before the last window
+        madd = cls.methods.get("add")
+        addk = {c.callee.key for c in (F.calls_from(madd) if madd else []) if c.callee.is_kernel}
+        own_stores = [e for e in w.events if e.kind == "store" and e.loops]
+        for c in {id(c.node): c for c in single + looped}.values():
+            same = c.callee.key in addk
+            if same:
+                ctx.ob("window", k, c.node, "%s(...) in %s" % (c.callee.name, k.name), "a window is added by the kernel add() uses", True)
+            elif own_stores:
+                ctx.ob("window", k, c.node, "%s(...) in %s" % (c.callee.name, k.name), "a window is added by the kernel add() uses", None,
+                       "%s updates the tables itself instead of calling %s: the per-window update is not recognised" % (k.name, sorted(x.split("::")[-1] for x in addk)))
+            else:
+                ctx.ob("window", k, c.node, "%s(...) in %s" % (c.callee.name, k.name), "a window is added by the kernel add() uses", False,
+                       "the windows are passed to %s, which is not the kernel add() calls (%s): they are not added" % (c.callee.name, sorted(x.split("::")[-1] for x in addk)))
+        wl = {id(c.loops[0]): c.loops[0] for c in looped}
+        for lp in wl.values():
+            exits = [e for e in w.events if e.kind in ("ret", "loopbreak") and getattr(e, "loops", None) and e.loops[0] is lp
+                     and not (e.kind == "loopbreak" and len(e.loops) > 1 and getattr(e, "loop", None) is not lp)]
+            okk = not exits
+            node = exits[0].node if exits and getattr(exits[0], "node", None) is not None else k.node
+            ctx.ob("window", k, node, "%s: exits inside the window loop" % k.name, "the window loop runs to the last window (no return/break inside it)", okk,
+                   "" if okk else "`%s` leaves the window loop: the windows after that one are never added" % src(k, node, 50))
         # exactly these two shapes: every normal exit saw either one whole-key call and no window loop, or one window loop
         # (one add per iteration) and no other add
         res = []
